@@ -561,7 +561,7 @@ where
 
         for solution in populations.current_mut().as_solutions_mut() {
             ensure!(
-                num_swap < solution.len(),
+                num_swap <= solution.len(),
                 "more than {} swaps are not possible on a solution of length {}",
                 num_swap,
                 solution.len()
